@@ -259,11 +259,19 @@ func exhCount(L int) int64 {
 
 var towerKinds = []string{"Variant>Variant(scalar)", "Variant>Variant(array[1])", "DiagnosticInfo>Inner", "Variant>DataValue>Variant", "Variant>ExtensionObject>KeyValuePair>Variant", "DataValue>Variant(array[1]) of DataValue"}
 
+// c03 is set when the binary runs C03: Encode copies the encoding of every nesting level into its
+// parent, i.e. it is quadratic in the depth (a 64 KiB tower needs gigabytes), so the re-encoding
+// oracle is applied to towers of depth <= 2^12 only.
+var c03 bool
+
 func towerDepths(thorough bool) []int {
 	var d []int
 	max := 1 << 16
 	if thorough {
 		max = 1 << 20
+	}
+	if c03 {
+		max = 1 << 12
 	}
 	for x := 1; x <= max; x *= 2 {
 		d = append(d, x)
@@ -453,6 +461,15 @@ func (e *executor) publish(unit, m int, key string) {
 	copy(e.pub[12:], key)
 }
 
+// publishPhase replaces the published key of the running case by a phase marker.
+func (e *executor) publishPhase(ph string) {
+	if e.pub == nil {
+		return
+	}
+	binary.LittleEndian.PutUint32(e.pub[8:], uint32(len(ph)))
+	copy(e.pub[12:], ph)
+}
+
 func (e *executor) violate(sig, detail string, rp caseReplay) {
 	e.violated = true
 	if e.sigSeen == nil {
@@ -494,6 +511,7 @@ func errClass(err error) string {
 func (e *executor) allocTop() string {
 	runtime.GC()
 	runtime.GC()
+	runtime.GC() // the profile lags two collection cycles
 	after := snapshotProfile()
 	best, top := int64(0), "?"
 	for k, a := range after {
@@ -612,7 +630,10 @@ func (e *executor) runCaseKey(t *dtarget, in []byte, key string, desc func() str
 		r.NotJudged++
 		return true
 	}
+	e.publishPhase("@reencode")
+	e.caseStart.Store(time.Now().UnixNano())
 	sig, detail := reencodeOracle(t, v, n, in)
+	e.caseStart.Store(0)
 	if sig == "" {
 		r.Outcomes["stable"]++
 	} else {
@@ -627,6 +648,17 @@ func shapeSuffix(shape string) string {
 		return "/outside-known-length-fields"
 	}
 	return "/" + shape
+}
+
+// diffLeaf names the kind of the differing leaf (the field path would make one signature per
+// nesting of the same defect): "DateTime" for time values, else the last field name.
+func diffLeaf(d string) string {
+	if strings.Contains(d, ": time ") {
+		return "DateTime"
+	}
+	f := diffField(d)
+	f = strings.TrimRight(f, "[]")
+	return lastField(f)
 }
 
 func clipBytes(b []byte) []byte {
@@ -665,7 +697,7 @@ func reencodeOracle(t *dtarget, v reflect.Value, n int, in []byte) (string, stri
 		return "reencode/" + cls + "/redecode-error:" + errClass(err), fmt.Sprintf("%v; input %x reencoded %x", err, clipBytes(in), clipBytes(enc))
 	}
 	if d := diff(v, v2, "", normC03, 0); d != "" {
-		return "reencode/" + cls + "/value-differs@" + diffField(d), fmt.Sprintf("%s; input %x reencoded %x", d, clipBytes(in), clipBytes(enc))
+		return "reencode/" + cls + "/value-differs@" + diffLeaf(d), fmt.Sprintf("%s; input %x reencoded %x", d, clipBytes(in), clipBytes(enc))
 	}
 	if !t.svc {
 		if n2 != len(enc) {
@@ -685,7 +717,7 @@ func reencodeOracle(t *dtarget, v reflect.Value, n int, in []byte) (string, stri
 			return "reencode/" + cls + "/embedded-sentinel-changed", fmt.Sprintf("in a container the re-encoded value is read as %d bytes instead of %d: the following field changes; input %x reencoded %x", n3, len(enc), clipBytes(in), clipBytes(enc))
 		}
 		if d := diff(v, v3, "", normC03, 0); d != "" {
-			return "reencode/" + cls + "/embedded-value-differs@" + diffField(d), d
+			return "reencode/" + cls + "/embedded-value-differs@" + diffLeaf(d), d
 		}
 	}
 	_ = n
@@ -1266,22 +1298,32 @@ func superviseShard(prop string, s evid.ShardInfo, w *evid.Run, p *plan, assign 
 	// order of execution inside a shard: default seeds first, then the small complete spaces, then
 	// the other seeds (in seed order per entry point), then pairs
 	prio := func(u unit) int {
+		bi := p.targets[u.Target].Kind == "builtin"
 		switch {
-		case u.Kind == "mut" && u.Seed == 0:
+		case u.Kind == "mut" && u.Seed == 0 && bi:
 			return 0
-		case u.Kind == "mut":
+		case u.Kind == "mut" && u.Seed == 0:
 			return 2
-		case u.Kind == "pair":
+		case u.Kind == "mut" && bi:
 			return 3
+		case u.Kind == "mut":
+			return 4
+		case u.Kind == "pair":
+			return 5
 		}
-		return 1
+		return 1 // exh, grid, tower
 	}
 	sort.SliceStable(mine, func(a, b int) bool { return prio(p.units[mine[a]]) < prio(p.units[mine[b]]) })
-	failBudget := 96
+	// Every input that kills the decoding process or allocates beyond the bound costs a process
+	// start (or hundreds of megabytes of page faults). Each priority class has a budget of such
+	// inputs per shard; when it is used up the remaining units of the class are reported as not
+	// run. On a tree without such inputs nothing is cut.
+	budgets := []int{64, 96, 32, 32, 32, 16}
 	if p.thorough {
-		failBudget = 1024
+		budgets = []int{512, 512, 256, 256, 256, 128}
 	}
-	fails := 0
+	classNames := []string{"default seeds of built-ins", "exhaustive/grid/tower units", "default seeds of generated types", "other seeds of built-ins", "other seeds of generated types", "pairs"}
+	fails, curClass := 0, -1
 	dir, err := os.MkdirTemp(evid.Scratch(), "codec-")
 	if err != nil {
 		evid.EngineError(prop, "scratch: %v", err)
@@ -1308,26 +1350,35 @@ func superviseShard(prop string, s evid.ShardInfo, w *evid.Run, p *plan, assign 
 	deaths, unitDeaths := 0, 0
 	var samples int
 	for start < len(mine) {
-		if fails > failBudget {
-			// every further failing input costs a process; the remaining units are reported as not run
+		if c := prio(myUnits[start]); c != curClass {
+			curClass, fails = c, 0
+		}
+		if fails > budgets[curClass] {
+			// skip the remaining units of this class
 			var cases int64
-			kinds := map[string]int{}
-			for _, u := range myUnits[start:] {
-				kinds[u.Kind]++
+			nskip := 0
+			for start < len(mine) && prio(myUnits[start]) == curClass {
+				u := myUnits[start]
 				switch u.Kind {
 				case "mut":
 					cases += int64(countSingles(p.seedAt(u.Target, u.Seed).Bytes))
 				case "exh":
 					cases += exhCount(p.L)
 				}
+				nskip++
+				start++
 			}
 			w.NotJudged(cases)
-			w.Capped(fmt.Sprintf("shard %d stopped after %d inputs that killed the decoding process or allocated beyond the bound (budget %d per shard): %d of its %d units not run (%v; at least %d inputs)",
-				s.Index, fails, failBudget, len(mine)-start, len(mine), kinds, cases))
-			break
+			outcomes["not-run:class-over-failure-budget"] += cases
+			w.Capped(fmt.Sprintf("shard %d: %q stopped after %d inputs that killed the decoding process or allocated beyond the bound: %d units (at least %d inputs) not run",
+				s.Index, classNames[curClass], fails, nskip, cases))
+			skip = skip[:0]
+			judged = map[int]bool{}
+			unitDeaths = 0
+			continue
 		}
 		binary.LittleEndian.PutUint32(pub[0:], 0xffffffff)
-		cmd := exec.Command(os.Args[0], os.Args[1:]...)
+		cmd := exec.Command("/proc/self/exe", os.Args[1:]...) // survives a rebuild of the binary by another run
 		cmd.Env = append(os.Environ(), "VERIF_CODEC_EXEC=1", "VERIF_CODEC_UNITS="+unitsPath,
 			"VERIF_CODEC_START="+strconv.Itoa(start), "VERIF_CODEC_SKIP="+strings.Join(skip, ","), "VERIF_CODEC_PUB="+pubPath, "VERIF_CODEC_MEMO="+memoPath, "GOMAXPROCS=2")
 		hw := &headWriter{max: 24 << 10}
@@ -1430,6 +1481,11 @@ func superviseShard(prop string, s evid.ShardInfo, w *evid.Run, p *plan, assign 
 			w.Violate("decode/"+t.class()+"/"+kind+"/"+top, fmt.Sprintf("the decoding process died (%v) on input %x (%s)\n%s", werr, clipBytes(in), desc, firstLines(stderr, 14)),
 				caseReplay{Target: t.Name, Kind: t.Kind, Hex: hex.EncodeToString(clipReplay(in)), Desc: desc})
 			outcomes["process-death:"+kind]++
+		} else if key == "@reencode" {
+			w.Violate("reencode/"+t.class()+"/process-death:"+kind+"/"+top, fmt.Sprintf("the process died (%v) while re-encoding or re-decoding the value decoded from %x (%s)\n%s", werr, clipBytes(in), desc, firstLines(stderr, 14)),
+				caseReplay{Target: t.Name, Kind: t.Kind, Hex: hex.EncodeToString(clipReplay(in)), Desc: desc})
+			outcomes["process-death-in-reencode:"+kind]++
+			key = ""
 		} else {
 			// C03 quantifies over inputs that decode successfully; a decoder death is C02's finding
 			w.NotJudged(1)
@@ -1522,6 +1578,7 @@ func reconstructCase(p *plan, u unit, m int) ([]byte, string) {
 // ---- entry ------------------------------------------------------------------------------------
 
 func runC02(prop string) {
+	c03 = prop == "C03"
 	if os.Getenv("VERIF_CODEC_EXEC") != "" {
 		executorMain(prop)
 		return
